@@ -456,7 +456,7 @@ class StmtMixin:
         return names, locs
 
     def havoc(self, st, names, locs, keep=()):
-        for n in names:
+        for n in sorted(names):
             if n in keep:
                 continue
             v = st.vars.get(n)
@@ -479,7 +479,7 @@ class StmtMixin:
                 pass
             else:
                 raise Unsupported(f"havoc of {n}: {type(v).__name__}")
-        for loc in locs:
+        for loc in sorted(locs):
             c = st.heap[loc]
             c.term = z3.Const(fresh_name("hv"), c.term.sort())
 
